@@ -101,7 +101,7 @@ theorem model_passes_checkers (g : Grid) (hg : PosGrid g) (pts : List P3) :
     coversB g pts (filled g pts) = true ∧ insideB g (filled g pts) = true :=
   ⟨covers_filled g hg pts, inside_filled g pts⟩
 
-/-- **counts_conserved.** With `counts=True` (as documented: each filled voxel holds its number of points) the
+/-- **counts_conserved.** With `counts=True` (each filled voxel holds its number of points) the
 grid total is exactly the number of points whose voxel lies inside the grid; every entry is the number of points
 that share that voxel. -/
 theorem counts_conserved (g : Grid) (pts : List P3) :
@@ -134,19 +134,12 @@ theorem counts_conserved_in_bounds (g : Grid) (hg : PosGrid g) (pts : List P3) :
   · intro h
     rw [List.filter_eq_self.mpr (fun p hp => inGrid_of_inBounds g hg p (h p hp))]
 
-/-- **The code as written** (`cnt` is not filtered together with the voxels): whenever it does not raise, its
-grid is the documented one, hence conserves the count; and it does not raise when no voxel is clipped — in
-particular when all points are inside the bounds. -/
-theorem counts_as_written (g : Grid) (hg : PosGrid g) (pts : List P3) :
-    (∀ cs, countsAsWritten g pts = some cs → cs = counts g pts ∧ gridSum cs = nInside g pts) ∧
-    ((∀ p ∈ pts, inBounds g p = true) → countsAsWritten g pts = some (counts g pts)) := by
-  constructor
-  · intro cs h
-    have := countsAsWritten_eq g pts cs h
-    subst this
-    exact ⟨rfl, counts_sum g pts⟩
-  · intro h
-    exact countsAsWritten_of_all_inside g pts (fun p hp => inGrid_of_inBounds g hg p (h p hp))
+/-- **vectors_stay_inside.** With `vectors=True` / `alphas=True` the voxels that receive a vector / alpha value are
+exactly the filled voxels of the grid: nothing is written for a point whose voxel lies outside the requested bounds. -/
+theorem vectors_stay_inside (g : Grid) (pts : List P3) :
+    vectorCells g pts = filled g pts ∧ (∀ v ∈ vectorCells g pts, inGrid g v = true) ∧
+    ((∀ p ∈ pts, inGrid g (voxIdx g p) = true) → vectorCells g pts = dedup (allIdx g pts)) :=
+  ⟨rfl, fun v hv => ((mem_filled g pts v).mp hv).2, fun h => filled_of_all_inside g pts h⟩
 
 /-- A concrete grid: pitch ½/1/2, bounds `[0,3]×[0,2]×[0,4]`, units 8. -/
 def gEx : Grid := ⟨⟨1 / 2, 1, 2⟩, ⟨0, 0, 0⟩, ⟨3, 2, 4⟩, ⟨8, 8, 8⟩⟩
@@ -158,10 +151,9 @@ example : PosGrid gEx := by unfold PosGrid gEx; norm_num
 example : shape gEx = ⟨7, 3, 3⟩ ∧ allIdx gEx ptsEx = [⟨0, 0, 0⟩, ⟨2, 2, 2⟩, ⟨6, 2, 2⟩, ⟨0, 0, 0⟩, ⟨7, 0, 0⟩] ∧
     counts gEx ptsEx = [(⟨2, 2, 2⟩, 1), (⟨6, 2, 2⟩, 1), (⟨0, 0, 0⟩, 2)] ∧ nInside gEx ptsEx = 4 ∧
     (ptsEx.filter (inBounds gEx)).length = 4 := by decide +kernel
-/-- **Witness of the open defect**: with a clipped voxel and `counts=True` the code as written raises
-(`shape mismatch`), although the property demands the grid `counts gEx ptsEx` with total 4. -/
-example : countsAsWritten gEx ptsEx = none := by decide +kernel
-example : countsAsWritten gEx (ptsEx.take 4) = some (counts gEx (ptsEx.take 4)) := by decide +kernel
+/-- (Historical: before the fix `neuron2voxels(counts=True)` raised `shape mismatch` on this input, because the counts
+were not filtered together with the clipped voxel `⟨7, 0, 0⟩`; the repaired code returns `counts gEx ptsEx`, total 4.) -/
+example : gridSum (counts gEx ptsEx) = 4 ∧ vectorCells gEx ptsEx = [⟨2, 2, 2⟩, ⟨6, 2, 2⟩, ⟨0, 0, 0⟩] := by decide +kernel
 
 /-! ## 3. skeleton → tangents (`make_dotprops(skeleton, k=0)`) -/
 
@@ -169,8 +161,9 @@ example : countsAsWritten gEx (ptsEx.take 4) = some (counts gEx (ptsEx.take 4)) 
 `KeyError`), the tangents are, in row order, exactly one per child/parent pair at *different* positions
 (zero-length edges are dropped, nothing else), and for each of them: the point is the midpoint `(child+parent)/2`,
 equidistant from both ends; the (un-normalised) vector is `child − parent`, which is parallel to the
-child→parent vector `parent − child` (cross product zero) — and is its *negative*: the code returns the
-parent→child orientation, the docstring says child→parent; the recorded squared length is `|child − parent|² > 0`. -/
+child→parent vector `parent − child` (cross product zero).  Tangents are unoriented directions (NBLAST uses `|dot|`,
+the k > 0 path returns an arbitrary sign), so the sign is not part of the property; for the record the code's
+orientation is `child − parent = −(parent − child)`.  The recorded squared length is `|child − parent|² > 0`. -/
 theorem tangent_midpoint_and_length (t : List Row) (es : List (P3 × P3)) (h : edgePairs t = some es) :
     ∃ ts, tangents t = some ts ∧
       ts = (es.filter fun e => decide (e.1 ≠ e.2)).map (fun e => edgeTangent e.1 e.2) ∧
@@ -214,16 +207,21 @@ theorem k_clipped (n k : Nat) :
 
 example : kClip 5 20 = 5 ∧ kClip 30 20 = 20 := by decide
 
-/-- **alpha_range.** For singular values `s₁ ≥ s₂ ≥ s₃ ≥ 0` that are not all zero, `alpha` lies in `[0, 1]`; it is
-`1` exactly for a collinear neighbourhood (`s₂ = s₃ = 0`) and `0` exactly when the two leading values tie. -/
-theorem alpha_range (s1 s2 s3 : Rat) (h12 : s2 ≤ s1) (h23 : s3 ≤ s2) (h3 : 0 ≤ s3) (hpos : 0 < s1 + s2 + s3) :
-    (0 ≤ alpha s1 s2 s3 ∧ alpha s1 s2 s3 ≤ 1) ∧ (alpha s1 s2 s3 = 1 ↔ s2 = 0 ∧ s3 = 0) ∧
-    (alpha s1 s2 s3 = 0 ↔ s1 = s2) :=
-  ⟨alpha_bounds s1 s2 s3 h12 h23 h3 hpos, alpha_eq_one_iff s1 s2 s3 h23 h3 hpos, alpha_eq_zero_iff s1 s2 s3 hpos⟩
+/-- **alpha_range.** For all singular values `s₁ ≥ s₂ ≥ s₃ ≥ 0` — including the all-zero spectrum of a neighbourhood
+whose points coincide, where the guarded division yields `0` — `alpha` lies in `[0, 1]`.  When they are not all zero it
+is `1` exactly for a collinear neighbourhood (`s₂ = s₃ = 0`) and `0` exactly when the two leading values tie. -/
+theorem alpha_range (s1 s2 s3 : Rat) (h12 : s2 ≤ s1) (h23 : s3 ≤ s2) (h3 : 0 ≤ s3) :
+    (0 ≤ alpha s1 s2 s3 ∧ alpha s1 s2 s3 ≤ 1) ∧
+    (0 < s1 + s2 + s3 → (alpha s1 s2 s3 = (s1 - s2) / (s1 + s2 + s3)) ∧ (alpha s1 s2 s3 = 1 ↔ s2 = 0 ∧ s3 = 0) ∧
+      (alpha s1 s2 s3 = 0 ↔ s1 = s2)) ∧
+    (¬ 0 < s1 + s2 + s3 → alpha s1 s2 s3 = 0) :=
+  ⟨alpha_bounds_all s1 s2 s3 h12 h23 h3,
+   fun hpos => ⟨by unfold alpha; rw [if_pos hpos], alpha_eq_one_iff s1 s2 s3 h23 h3 hpos, alpha_eq_zero_iff s1 s2 s3 hpos⟩,
+   alpha_zero_sum s1 s2 s3⟩
 
-example : alpha 5 2 1 = 3 / 8 ∧ alpha 4 0 0 = 1 ∧ alpha 2 2 1 = 0 := by decide +kernel
+example : alpha 5 2 1 = 3 / 8 ∧ alpha 4 0 0 = 1 ∧ alpha 2 2 1 = 0 ∧ alpha 0 0 0 = 0 := by decide +kernel
 
-/-- **finite_points.** Rows with a NaN coordinate are dropped and nothing else: the points of the result are the
+/-- **finite_points.** Rows with a non-finite coordinate (NaN or ±inf, modelled as `none`) are dropped and nothing else: the points of the result are the
 finite rows, in order, one each. -/
 theorem finite_points (l : List (Option P3)) :
     (finitePts l).length = (l.filter Option.isSome).length ∧ (∀ p, p ∈ finitePts l ↔ some p ∈ l) ∧
